@@ -122,8 +122,10 @@ def check_chain(ctx: Ctx, c: Dict[str, Any], variant: int = 0) -> None:
     g = base
     hist = c["hist"]
     sig0 = dict(depth=len(hist), **grid_sig(c["base"]))
+    prev = base
     for k, o in enumerate(hist):
         try:
+            prev = g
             g = apply_op(g, o, variant)
         except Exception as ex:
             if k == len(hist) - 1:  # failures of earlier steps are reported by the shorter chain
@@ -133,6 +135,23 @@ def check_chain(ctx: Ctx, c: Dict[str, Any], variant: int = 0) -> None:
             return
     last = hist[-1]
     compare_grid(ctx, c, g, c["g"], dict(**op_sig(last), **sig0), f"after {[h['op'] for h in hist]}")
+    # the same resize through the grid's cube: Grid -> Cube -> Grid of the requested size covers the same world cube
+    if last["op"] in ("resize", "reshape") and min(c["g"]["n"]) >= 2 and min(prev.size()) >= 2:
+        acq = prev.align_corners() if last["ac"] == -1 else bool(last["ac"])
+        n_new = list(c["g"]["n"])
+        forms = [("size", dict(size=tuple(n_new))), ("shape", dict(shape=tuple(reversed(n_new)))), ("cube()", None)]
+        name, kw = forms[variant % len(forms)]
+        try:
+            if kw is None:
+                gc = g.align_corners(acq).cube().grid(size=tuple(n_new), align_corners=acq)
+            else:
+                gc = prev.align_corners(acq).cube().grid(align_corners=acq, **kw)
+            gc = gc.align_corners(prev.align_corners())
+        except Exception as ex:
+            ctx.violation(dict(op="Cube.grid", form=name, **sig0, exc=type(ex).__name__),
+                          f"Grid.cube().grid({name}) raised {type(ex).__name__} ({str(ex)[:120]}) after {[h['op'] for h in hist[:-1]]}", c)
+        else:
+            compare_grid(ctx, c, gc, c["g"], dict(op="Cube.grid", form=name, ac_arg=last["ac"], **sig0), f"Grid.cube().grid({name}) in place of {last['op']} after {[h['op'] for h in hist[:-1]]}")
     # same domain for the resize family
     if last["op"] in ("resize", "reshape", "downsample", "upsample") and len(hist) == 1:
         acq = base.align_corners() if last["ac"] == -1 else bool(last["ac"])
